@@ -13,16 +13,20 @@ package syntax
 // (zzRefLex), including the "unindent does not match" rejection.
 
 // zzIndent returns an indentation of 0..maxw symbolic characters over {space,
-// tab}; with wide it may also be 7 or 8 (concrete) spaces, the widths that
-// distinguish a tab stop from a fixed tab width.
+// tab}; with wide it may also be 7 or 8 (thorough: or 15, 16) concrete spaces,
+// the widths that distinguish tab stops from fixed tab widths.
 func zzIndent(name string, maxw int, wide bool) string {
 	nw := maxw + 1
+	widths := []int{7, 8}
+	if maxw >= 2 {
+		widths = []int{7, 8, 15, 16}
+	}
 	if wide {
-		nw += 2
+		nw += len(widths)
 	}
 	w := zzChoice(name+"w", nw)
 	if w > maxw {
-		return "        "[:7+w-maxw-1]
+		return "                "[:widths[w-maxw-1]]
 	}
 	ind := zzString(name, w)
 	for i := 0; i < w; i++ {
